@@ -224,6 +224,34 @@ def run(ctx):
                     nontrivial += 1
                 if len(samples) < 4 and okp:
                     samples.append({'string': c, 'kind': kind, 'score': prob, 'preterminal': str(pt)})
+        if i == 0:
+            # the same process goes on to score against an *edited copy* of this ruleset (edit_rules --copy keeps the uuid and removes
+            # base structures): a score is a promise about the ruleset it was asked about, not about one seen earlier
+            try:
+                import edit_rules as _er
+                rd2 = rd + '_edit'
+                import shutil as _sh
+                _sh.rmtree(rd2, ignore_errors=True)
+                with contextlib.redirect_stdout(io.StringIO()), contextlib.redirect_stderr(io.StringIO()):
+                    _er.edit_rules({'rules_dir': os.path.dirname(rd), 'rule': os.path.basename(rd), 'copy': os.path.basename(rd2),
+                                    'min_length': 0, 'max_length': 0, 'terminal_set': ['A', 'D'], 'regex': None})
+                sc2 = load_scorer(rd2)
+                pcfg2 = common.load_grammar(rd2, skip_brute=False)
+                n_edit = 0
+                for c in list(res)[:400]:
+                    _, cat2, prob2, _om2 = sc2.parse(c)
+                    if prob2 != 0:
+                        n_edit += 1
+                        okp2, pt2, gp2 = guesser_promise(pcfg2, c, prob2)
+                        if not okp2 and not (any(ch.lower() != ch and not ch.isupper() for ch in c) or len(c.lower()) != len(c)):
+                            viol.append({'property': 'C13', 'kind': 'promise-not-kept', 'string': c, 'score': prob2, 'best_preterminal': str(pt2),
+                                         'guesser_prob': gp2, 'special_case_letters': False, 'ruleset': 'edit_rules --copy --terminal_set A,D of the ruleset scored before',
+                                         'witness': {'list': pws, 'string': c, 'edited_copy': {'terminal_set': ['A', 'D']}}})
+                            break
+                dist['edited_copy_nonzero'] = n_edit
+                cases += 1
+            except ImportError:
+                dist['edited_copy_nonzero'] = 'edit_rules not importable'
     if ctx.driver_ok:
         out = common.run_driver(ops)
         for i, (a, b) in enumerate(zip(out, exp)):
@@ -258,6 +286,16 @@ def replay(ctx, payload):
     if not ok:
         return []
     sc = load_scorer(rd)
+    if w.get('edited_copy'):
+        import edit_rules as _er
+        import shutil as _sh
+        rd2 = rd + '_edit'
+        _sh.rmtree(rd2, ignore_errors=True)
+        with contextlib.redirect_stdout(io.StringIO()), contextlib.redirect_stderr(io.StringIO()):
+            _er.edit_rules({'rules_dir': os.path.dirname(rd), 'rule': os.path.basename(rd), 'copy': os.path.basename(rd2),
+                            'min_length': 0, 'max_length': 0, 'terminal_set': w['edited_copy']['terminal_set'], 'regex': None})
+        sc = load_scorer(rd2)
+        rd = rd2
     pcfg = common.load_grammar(rd)
     _, cat, prob, omen = sc.parse(w['string'])
     if prob != 0 and not guesser_promise(pcfg, w['string'], prob)[0]:
